@@ -87,7 +87,12 @@ func main() {
 	ndec := flag.Int("ndec", 200, "policies that are also encrypted and decrypted under all 16 keys")
 	ntamper := flag.Int("ntamper", 150, "single-bit alterations of ciphertexts")
 	testdata := flag.String("testdata", "", "tkn20/testdata directory (old-format golden ciphertext)")
+	large := flag.String("large", "", "")
 	flag.Parse()
+	if *large != "" {
+		largePolicies(*large, vlib.Rng(*seed, "c20-large"), []int{20, 300, 1000, 1400})
+		return
+	}
 
 	var rows []polRow
 	vlib.ReadJSON(*pols, &rows)
